@@ -429,7 +429,7 @@ def isolation_matrix(R, B, rng):
              'to_builder': lambda c: c.to_builder()}
     second = {'copy': lambda o: o.copy(), 'to_cell': lambda o: o.to_cell(), 'to_builder': lambda o: o.to_builder(), 'to_slice': lambda o: o.to_slice(), 'begin_parse': lambda o: o.begin_parse(),
               'end_cell': lambda o: o.end_cell(), 'store_slice': lambda o: B.Builder().store_slice(o), 'store_cell': lambda o: B.Builder().store_cell(o)}
-    for nbits in (0, 1, 7, 8, 9, 64, 699, 700, 701, 1015, 1016, 1017, 1023):
+    for nbits in (0, 1, 2, 3, 4, 5, 6, 7, 8, 9, 10, 11, 12, 64, 699, 700, 701, 1015, 1016, 1017, 1021, 1022, 1023):
         for nrefs in (0, 1, 4):
             bits = gen.rand_bits(rng, nbits)
             b = B.Builder().store_bits(bits)
@@ -464,7 +464,13 @@ def isolation_matrix(R, B, rng):
             # what the accessors hand out belongs to the caller: whatever of it is mutable is changed in place, the cell stays what it was
             for aname, get in (('data', lambda: cell.data), ('get_data_bytes', lambda: cell.get_data_bytes()), ('get_representation', lambda: cell.get_representation()),
                                ('to_boc', lambda: cell.to_boc()), ('order', lambda: cell.order()), ('hash', lambda: cell.hash), ('get_hash', lambda: cell.get_hash(0)),
-                               ('refs-of-copy', lambda: cell.copy().refs), ('bits-of-copy', lambda: cell.copy().bits), ('begin_parse.refs', lambda: cell.begin_parse().refs)):
+                               ('refs-of-copy', lambda: cell.copy().refs), ('bits-of-copy', lambda: cell.copy().bits), ('begin_parse.refs', lambda: cell.begin_parse().refs),
+                               # looking at a cell - showing it, hashing it, comparing it, copying it through the copy / pickle protocols - is not using it
+                               ('repr', lambda: repr(cell)), ('str', lambda: str(cell)), ('format', lambda: f'{cell} {cell!r}'), ('repr-of-derived', lambda: (repr(cell.begin_parse()), repr(cell.to_builder()), str(cell.begin_parse()))),
+                               ('hash()', lambda: hash(cell)), ('==', lambda: (cell == cell, cell == cell.copy(), cell != cell.copy())), ('in-set', lambda: cell in {cell.copy()}),
+                               ('copy.copy', lambda: __import__('copy').copy(cell)), ('copy.deepcopy', lambda: __import__('copy').deepcopy(cell)),
+                               ('pickle', lambda: __import__('pickle').loads(__import__('pickle').dumps(cell))), ('len(bits)', lambda: (len(cell.bits), len(cell.refs), bool(cell.bits))),
+                               ('getitem', lambda: [cell[i] for i in range(nrefs)]), ('get_depth', lambda: cell.get_depth(0)), ('get_descriptors', lambda: cell.get_descriptors())):
                 st, x = mon.call(get)
                 if st == 'exc':
                     continue
@@ -479,6 +485,13 @@ def isolation_matrix(R, B, rng):
                 elif hasattr(x, 'invert') and hasattr(x, 'to01'):
                     mon.call(x.invert)
                     mon.call(lambda: x.extend('1'))
+                elif isinstance(x, B.Cell) and x is not cell:
+                    # a copy made through the copy / pickle protocol is a cell of its own: same content, and using it up leaves the original alone
+                    if content(x) != want or x.hash != h0 or x.type_ != cell.type_:
+                        R.violation(f'protocol-copy-differs-{aname}', f'{aname} of a cell gives another cell: {mon.srepr(x, 60)}', {'bits': nbits, 'refs': nrefs, 'accessor': aname})
+                    mon.call(use_up, x)
+                    if aname != 'copy.copy':        # copy.copy is Python's shallow copy: its attributes ARE the original's, changing them in place is changing the original
+                        mon.call(lambda: (x.bits.invert(), x.refs.clear()))
                 R.count('accessor_results_mutated')
                 if content(cell) != want or cell.hash != h0 or cell.to_boc(True, True) != boc0 or mon.call(cell.calculate_representation_hash) != ('ok', h0) or cell.copy().hash != h0:
                     R.violation(f'accessor-result-aliases-cell-{aname}', f'changing in place what {aname} returned ({type(x).__name__}) changed the cell', {'bits': nbits, 'refs': nrefs, 'accessor': aname})
